@@ -495,10 +495,11 @@ func (e *env) oracleFor(t *oracleTable, r *hutil.Rng, files []*File, out *hutil.
 // ---------------------------------------------------------------- the real pipeline
 
 type collected struct {
-	once sync.Once
-	aggs map[string][]report.Aggregate
-	dirs map[string]map[string][]string
-	err  error
+	once  sync.Once
+	aggs  map[string][]report.Aggregate
+	dirs  map[string]map[string][]string
+	viols []Viol // the aggregate violations the collect run itself reported
+	err   error
 }
 
 func filesKey(fs []*File) string {
@@ -532,6 +533,9 @@ func (e *env) collect(part []*File, useCollect bool) *collected {
 		in := inputOf(part)
 		rep, err := e.baseLinter().WithCollectQuery(useCollect).WithExportAggregates(true).WithInputModules(&in).Lint(context.Background())
 		c.aggs, c.dirs, c.err = rep.Aggregates, rep.IgnoreDirectives, err
+		if err == nil {
+			c.viols = violsOfReport(rep)
+		}
 	})
 	return c
 }
@@ -593,6 +597,7 @@ type CollectRec struct {
 	UseCollect bool             `json:"use_collect"`
 	Keys       map[string][]int `json:"keys"` // exported key -> entry ids (sorted); a key with no entries is the marker
 	DirFiles   []string         `json:"dir_files"`
+	Obs        []Viol           `json:"obs"` // aggregate violations reported by the collect run itself
 	Err        string           `json:"err,omitempty"`
 }
 
@@ -622,7 +627,7 @@ func idParts(ps [][]*File) [][]int {
 
 func (e *env) collectRec(ws string, part []*File, useCollect bool) CollectRec {
 	c := e.collect(part, useCollect)
-	rec := CollectRec{Kind: "collect", WS: ws, Part: ids(part), UseCollect: useCollect, Keys: map[string][]int{}, DirFiles: []string{}}
+	rec := CollectRec{Kind: "collect", WS: ws, Part: ids(part), UseCollect: useCollect, Keys: map[string][]int{}, DirFiles: []string{}, Obs: []Viol{}}
 	if c.err != nil {
 		rec.Err = c.err.Error()
 		return rec
@@ -638,6 +643,7 @@ func (e *env) collectRec(ws string, part []*File, useCollect bool) CollectRec {
 	for f := range c.dirs {
 		rec.DirFiles = append(rec.DirFiles, f)
 	}
+	rec.Obs = append(rec.Obs, c.viols...)
 	sort.Strings(rec.DirFiles)
 	return rec
 }
@@ -958,6 +964,7 @@ func runWorkspace(e *env, r *hutil.Rng, out *hutil.Out, d wsDef, thorough bool) 
 		if !seenCollect[k] {
 			seenCollect[k] = true
 			jobs = append(jobs, collectJob(part, true))
+			e.oracleFor(table, r, part, out) // the collect run reports on its own part when it has several files
 		}
 	}
 	// one-shot over the full set in two list orders, and over every subset of size >= 1 (small: also singletons,
